@@ -32,7 +32,12 @@ RULE = ("history spec (2-12 revisions, merges up to 3 parents, ghost parents, "
         "parent's), optionally a source that is itself stacked, the target "
         "kept write-locked across both transfers, 1/2/3/50 revisions per round "
         "of the walk to common revisions; 'long-history' kind: fixed 125-205 "
-        "revision histories with merges at the 10/50/100/200 batch boundaries. "
+        "revision histories with merges at the 10/50/100/200 batch boundaries; "
+        "Branch-level routes (pull, push, sprout, Branch.fetch) with "
+        "branch.fetch_tags=True on the source and a tag naming a revision "
+        "that exists nowhere; 'ghost-fill' kinds: Repository.fetch(X, "
+        "find_ghosts=True/False) into a target that holds X but has a merged "
+        "ancestor of X only as a ghost (local and smart). "
         "Non-trivial: the target already holds a proper non-empty subset of the "
         "transferred ancestry and that ancestry contains a merge; or the two "
         "formats differ; or a smart-server route; or a stacked target. Distinct "
@@ -90,7 +95,8 @@ def fetch_case(draw, tier="quick", smart=False):
     pre = draw(st.lists(st.sampled_from(ids),
                         min_size=draw(st.sampled_from([0, 1, 1, 1])),
                         max_size=2, unique=True))
-    route = draw(st.sampled_from(["fetch", "fetch", "pull", "push", "sprout"]))
+    route = draw(st.sampled_from(["fetch", "fetch", "pull", "push", "sprout",
+                                  "bfetch"]))
     stacked = None
     # (a stacked 2a target also forces the streaming path for local
     # cross-serializer fetches)
@@ -117,6 +123,12 @@ def fetch_case(draw, tier="quick", smart=False):
             "route": route, "stacked": stacked, "unrelated": unrelated,
             "remote": remote, "hold": draw(st.booleans()),
             "src_stacked": src_stacked,
+            # branch.fetch_tags=True on the source branch: Branch-level
+            # transfers also bring the tagged revisions that exist; a tag may
+            # name a revision that is in neither repository
+            "fetch_tags": route != "fetch" and draw(st.integers(0, 1)) == 0,
+            "dangling": draw(st.integers(0, 2)) != 0,
+            "tag_rev": draw(st.sampled_from(ids)),
             # revisions examined per round of the walk to common revisions
             # (class attribute of InterVersionedFileRepository, default 50)
             "walk_batch": draw(st.sampled_from([50, 50, 1, 2, 3]))}
@@ -230,6 +242,11 @@ def _transfer(case, env, d, tpath):
                     trepo.lock_write()
                     objs["locked"] = trepo
             return trepo.fetch(srepo, revision_id=x)
+        if route == "bfetch":
+            sb = cf.open_branch(env, spath, s_smart)
+            tb = cf.open_branch(env, tpath, t_smart)
+            tb.fetch(sb, stop_revision=x)
+            return None
         if route == "pull":
             sb = cf.open_branch(env, spath, s_smart)
             tb = cf.open_branch(env, tpath, t_smart)
@@ -313,11 +330,21 @@ def run(case, env):
             base = bz.init_branch(os.path.join(d, "base"), tfmt)
             base.repository.fetch(srepo, revision_id=bz.enc(stacked))
             tb.set_stacked_on_url("../base")
-    if sb.supports_tags() and spec["tags"] and (
+    if sb.supports_tags() and (spec["tags"] or case.get("fetch_tags")) and (
             case["route"] == "sprout" or
             _branch.Branch.open(tpath).supports_tags()):
         for name, rid in sorted(spec["tags"].items()):
             sb.tags.set_tag(name, bz.enc(rid))
+        if case.get("fetch_tags") and case.get("src_stacked") is None and \
+                case["route"] != "fetch":
+            sb.tags.set_tag("extra", bz.enc(case["tag_rev"]))
+            if case.get("dangling"):
+                sb.tags.set_tag("gone", b"revision-that-exists-nowhere")
+            sb.get_config_stack().set("branch.fetch_tags", True)
+            tagged = set(spec["tags"].values()) | {case["tag_rev"]}
+            for r in sorted(tagged):
+                want |= gm.ancestry(g, r)
+            case["_fetch_tags_on"] = True
     pre = set()
     if not refusal:
         for r in case["pre"]:
@@ -505,6 +532,9 @@ def _run_transfers(case, env, d, tpath, spath, sfmt, tfmt, spec, g, want, pre,
         nt.append("smart")
     if stacked is not None:
         nt.append("stacked")
+    if case.get("_fetch_tags_on"):
+        nt.append("fetch-tags-dangling" if case.get("dangling")
+                  else "fetch-tags")
     if not nt:
         return trivial()
     return ok("+".join(label_bits[:1] + nt))
@@ -582,6 +612,148 @@ def run_long(case, env):
     return out
 
 
+# ------------------------------------------------------------ ghost filling
+# Repository.fetch(revision_id=X, find_ghosts=True) into a target that already
+# holds X but in which a merged ancestor of X is a ghost, while the source has
+# it. The target is pre-populated from a second build of the same history in
+# which the revision(s) G were never built (BranchBuilder records them as
+# ghost parents). G is an empty commit on top of an ancestor of the merge's
+# left-hand parent, so the merge revision is byte-for-byte the same with and
+# without G (asserted).
+
+GF_PAIRS = [("2a", "2a"), ("2a", "2a"), ("pack-0.92", "pack-0.92"),
+            ("1.9", "1.9"), ("pack-0.92", "1.9"), ("1.9-rich-root", "2a"),
+            ("knit", "pack-0.92"), ("1.14-rich-root", "1.14-rich-root")]
+
+
+@st.composite
+def ghostfill_case(draw, tier="quick", smart=False):
+    spec = draw(hist.history_spec(n_min=2, n_max=6 if tier == "quick" else 10,
+                                  merges=True, ghosts=True, odd_names=False,
+                                  bb_safe=True, ops_max=2, base_max=3))
+    revs = spec["revs"]
+    g = {r["id"]: tuple(r["parents"]) for r in revs}
+    left = draw(st.sampled_from(sorted(g)))
+    pg = draw(st.sampled_from(sorted(gm.ancestry(g, left))))
+    proto = revs[-1]
+
+    def mk(parents, ops):
+        i = len(revs)
+        revs.append({"id": "r%d" % i, "parents": parents, "ghosts": [],
+                     "ops": ops, "msg": "m%d" % i, "ts": bz.T0 + 100 * i,
+                     "tz": 0, "committer": proto["committer"], "props": {}})
+        return "r%d" % i
+    chain = [mk([pg], [])]
+    if draw(st.booleans()):
+        chain.append(mk([chain[-1]], []))       # two revisions to fill in
+    merge_ops = [["add", "gf-id", tm.ROOT_ID, "gfn", "file",
+                  draw(tm.text_strategy()), False]] if draw(st.booleans()) \
+        else []
+    m = mk([left, chain[-1]], merge_ops)
+    x = m
+    if draw(st.booleans()):
+        x = mk([m], [["add", "gx-id", tm.ROOT_ID, "gxn", "file", "x\n", False]])
+    sfmt, tfmt = draw(st.sampled_from(GF_PAIRS))
+    remote = draw(st.sampled_from(["src", "tgt", "both"])) if smart else None
+    return {"spec": spec, "missing": chain, "x": x, "sfmt": sfmt,
+            "tfmt": tfmt, "find_ghosts": draw(st.integers(0, 3)) != 0,
+            "remote": remote,
+            "walk_batch": draw(st.sampled_from([50, 1, 2]))}
+
+
+def run_ghostfill(case, env):
+    from breezy import repository as _repository
+    from breezy.bzr.vf_repository import InterVersionedFileRepository as _IVFR
+    spec = case["spec"]
+    missing = set(case["missing"])
+    x = case["x"]
+    d = env.newdir("c03g")
+    g = hist.graph_of(spec, ghosts=True)
+    full = bz.init_branch(os.path.join(d, "src"), case["sfmt"])
+    full.nick = "nick"      # the nick goes into every revision's properties
+    hist.build_bb(spec, full)
+    _check_source(full.repository, spec, g)
+    lack_spec = {"tags": {}, "revs": []}
+    for rev in spec["revs"]:
+        if rev["id"] in missing:
+            continue
+        r2 = dict(rev)
+        r2["parents"] = [p for p in rev["parents"] if p not in missing]
+        r2["ghosts"] = list(rev.get("ghosts", [])) + [
+            p for p in rev["parents"] if p in missing]
+        lack_spec["revs"].append(r2)
+    lack = bz.init_branch(os.path.join(d, "lack"), case["sfmt"])
+    lack.nick = "nick"
+    hist.build_bb(lack_spec, lack)
+    shared = [r["id"] for r in lack_spec["revs"]]
+    with full.repository.lock_read(), lack.repository.lock_read():
+        for r in shared:
+            if cf.testament_texts(full.repository, bz.enc(r), True) != \
+                    cf.testament_texts(lack.repository, bz.enc(r), True):
+                raise RuntimeError("harness: revision %s differs between the "
+                                   "two builds" % r)
+        if cf.text_parent_map(full.repository, set(shared), False) != \
+                cf.text_parent_map(lack.repository, set(shared), False):
+            raise RuntimeError("harness: per-file graphs differ between the "
+                               "two builds")
+    tpath = os.path.join(d, "tgt")
+    bz.init_branch(tpath, case["tfmt"])
+    _repository.Repository.open(tpath).fetch(lack.repository,
+                                             revision_id=bz.enc(x))
+    want_all = gm.ancestry(g, x)
+    with _repository.Repository.open(tpath).lock_read():
+        pass
+    t0 = _repository.Repository.open(tpath)
+    with t0.lock_read():
+        before = {cf._s(r) for r in t0.all_revision_ids()}
+    if before & missing or x not in before:
+        raise RuntimeError("harness: target pre-population is not what the "
+                           "scenario needs: %r" % sorted(before))
+    remote = case["remote"]
+    s_smart = remote in ("src", "both")
+    t_smart = remote in ("tgt", "both")
+    fg = case["find_ghosts"]
+
+    def transfer():
+        try:
+            srepo = cf.open_branch(env, os.path.join(d, "src"),
+                                   s_smart).repository
+            trepo = cf.open_repo(env, tpath, t_smart)
+            return trepo.fetch(srepo, revision_id=bz.enc(x), find_ghosts=fg)
+        finally:
+            if remote:
+                cf.smart_disconnect(env)
+    old_batch = _IVFR._walk_to_common_revisions_batch_size
+    _IVFR._walk_to_common_revisions_batch_size = case.get("walk_batch", 50)
+    try:
+        transfer()
+        t = _repository.Repository.open(tpath)
+        s = full.repository
+        if fg:
+            # every ancestor the source can supply must now be there
+            cf.compare_history("C03", s, t, want_all, "ghostfill")
+        else:
+            cf.compare_history("C03", s, t, want_all - missing,
+                               "ghostfill-default")
+        with t.lock_read():
+            now = {cf._s(r) for r in t.all_revision_ids()}
+        check(before <= now, "C03/ghostfill-target-lost-revisions",
+              sorted(before - now))
+        cf.check_clean(t, "C03/ghostfill-")
+        disk1 = cf.repo_dir_snapshot(tpath)
+        transfer()
+        disk2 = cf.repo_dir_snapshot(tpath)
+        if disk1 != disk2:
+            check(False, "C03/ghostfill-refetch-changed-repository-files",
+                  sorted(k for k in set(disk1) | set(disk2)
+                         if disk1.get(k) != disk2.get(k))[:10])
+    finally:
+        _IVFR._walk_to_common_revisions_batch_size = old_batch
+    return ok("ghostfill:%s:%s:%s->%s:%d" % (
+        "find_ghosts" if fg else "default", remote or "local", case["sfmt"],
+        case["tfmt"], len(missing)))
+
+
 def kinds(tier):
     return [
         Kind("local", run, strategy=fetch_case(tier, smart=False),
@@ -590,4 +762,11 @@ def kinds(tier):
              examples={"quick": 200, "thorough": 6000},
              setup=cf.smart_setup, teardown=cf.smart_teardown),
         Kind("long-history", run_long, enumerate=long_cases, hash_cases=False),
+        Kind("ghost-fill", run_ghostfill,
+             strategy=ghostfill_case(tier, smart=False),
+             examples={"quick": 80, "thorough": 2000}),
+        Kind("ghost-fill-smart", run_ghostfill,
+             strategy=ghostfill_case(tier, smart=True),
+             examples={"quick": 48, "thorough": 1200},
+             setup=cf.smart_setup, teardown=cf.smart_teardown),
     ]
